@@ -2,7 +2,7 @@
 
 Correspondence stream `c06` (engine `Engines/C06.lean`, model `Model/Nulls.lean`): one real call through
 an entry point (`model_matrix`, `Formula.get_model_matrix`, `ModelSpec(s).get_model_matrix` with/without
-overrides, fitted or not, joint or one call per part, materializer method) on a generated frame, against
+overrides, fitted or not, joint or per-spec generation with a shared drop set, materializer method) on a generated frame, against
 `Model.Nulls.callNA`. The model is told, per evaluated factor, the SHAPE of the value (constant, list, pandas /
 narwhals Series, 0/1/2/n-d array, data frame, nested dict with hidden members, unknown object) and which of its CELLS are
 null by an independent per-cell definition (None / NaN / pandas.NA / NaT) — not what `find_nulls` returned — plus the
@@ -99,8 +99,9 @@ ASSUMPTIONS = [
     "as a malformed stream through the correspondence only",
     "under na_action='ignore' with a caller-supplied drop set the oracle only demands that no row outside the caller's "
     "list is removed (the property text says 'every row is kept' and does not speak about the caller's list there)",
-    "for one-call-per-part evaluation (ModelSpecs whose parts name different materializers) the oracle demands per part "
-    "that no kept row is null/listed and that the final set is the union of everything removed",
+    "ModelSpecs whose parts name different materializers are generated one by one (entry 'nonjoint'); the oracle demands of "
+    "them what it demands of every entry point: all parts hold the rows that are null in NO part and not listed by the "
+    "caller, and the caller's set is the set of rows removed from every part",
     "a constant factor that is null (`{float('nan')}`) counts as 'has a null' for the raise policy (the error is find_nulls' "
     "'Constant value is null'); under the drop policy the property text asks for a matrix without rows while the code raises: "
     "known finding C06-F1 (pinned by tests/utils/test_null_handling.py)",
@@ -118,7 +119,7 @@ RULE = (
     "categorical dicts (FactorValues(dict, kind='categorical')), values of kind 'constant', a factor that evaluates to None, "
     "unknown objects, C()/hashed() of lists and arrays; "
     "x na_action (string | NAAction member | invalid string) x caller drop set (none / empty / random subset) x entry point "
-    "(sugar, formula, modelspec +-overrides +-fitted, modelspecs +-overrides +-fitted, materializer, one-call-per-part) x output "
+    "(sugar, formula, modelspec +-overrides +-fitted, modelspecs +-overrides +-fitted, materializer, per-spec generation (parts naming different materializers)) x output "
     "x materializer. "
     "PLUS histories on one materializer object (PandasMaterializer / NarwhalsMaterializer over pandas or pyarrow data): 2-4 "
     "get_model_matrix calls, each with its own formula (terms drawn from a pool shared by the history, so factors recur; or "
@@ -1444,48 +1445,33 @@ def _oracle_call(c, o):
             if p["nrows"] != 0:
                 return f"drop policy: a constant factor is null (all rows are null), yet part {j} has {p['nrows']} rows"
         return None
-    joint = c["entry"] != "nonjoint"
+    # Every entry point — also ModelSpecs whose parts name different materializers and are generated one by one
+    # (`entry = nonjoint`) — must give ALL parts the same rows: those that are null in no part and not listed by the caller.
+    how = " (parts generated one by one with a shared drop set)" if c["entry"] == "nonjoint" else ""
     check_index = c["output"] == "pandas" and c["frame"] != "arrow"
     if pol == "ignore" and caller:
         for j, p in enumerate(o["parts"]):
             if p["kept"] is not None and (not _inc(p["kept"]) or not (set(range(n)) - caller) <= set(p["kept"])):
                 return f"ignore policy: part {j} kept rows {p['kept']}; rows outside the caller's list {sorted(caller)} must all be kept, in order"
         return None
-    removed_all = set()
+    bad = caller | (nulls if pol == "drop" else set())
+    want = [i for i in range(n) if i not in bad]
     for j, p in enumerate(o["parts"]):
-        if joint or c["caller"] is not None:
-            bad = caller | (nulls if pol == "drop" else set())
-        else:
-            bad = per_part[j] if pol == "drop" else set()
-        want = [i for i in range(n) if i not in bad]
-        if joint:
-            if p["kept"] is not None and p["kept"] != want:
-                return f"{pol} policy: part {j} contains rows {p['kept']}; the rows with no null factor (nulls in {sorted(nulls)}) not listed by the caller ({sorted(caller)}) are {want}"
-            if p["nrows"] != len(want):
-                return f"{pol} policy: part {j} has {p['nrows']} rows; {len(want)} rows must remain ({want})"
-        else:
-            k = p["kept"]
-            if k is not None:
-                mine = caller | (per_part[j] if pol == "drop" else set())
-                if not _inc(k) or set(k) & mine or not set(want) <= set(k):
-                    return f"{pol} policy (one call per part): part {j} contains rows {k}; it must contain {want}, none of {sorted(mine)}, in order"
-                removed_all |= set(range(n)) - set(k)
+        if p["kept"] is not None and p["kept"] != want:
+            return f"{pol} policy{how}: part {j} contains rows {p['kept']}; the rows with no null factor in any part (nulls in {sorted(nulls)}) not listed by the caller ({sorted(caller)}) are {want}"
+        if p["nrows"] != len(want):
+            return f"{pol} policy{how}: part {j} has {p['nrows']} rows; {len(want)} rows must remain ({want})"
         if check_index and p["kept"] is not None and p["index"] is not None:
             wl = [labels[i] for i in p["kept"] if 0 <= i < n]
             if p["index"] != wl:
                 return f"part {j}: output index is {p['index']}; the labels of the kept rows {p['kept']} are {wl}"
     if c["caller"] is not None:
-        if joint:
-            want_final = sorted(caller | (nulls if pol == "drop" else set()))
-            if o["final"] != want_final:
-                return f"caller's drop set is {o['final']} after the call; caller's rows {sorted(caller)} plus null rows {sorted(nulls) if pol == 'drop' else []} = {want_final}"
-            for j, p in enumerate(o["parts"]):
-                if p["kept"] is not None and sorted(set(range(n)) - set(p["kept"])) != o["final"]:
-                    return f"caller's drop set {o['final']} is not the set of rows removed from part {j} ({sorted(set(range(n)) - set(p['kept']))})"
-        else:
-            want_final = sorted(caller | (nulls if pol == "drop" else set()))
-            if o["final"] != want_final:
-                return f"(one call per part) caller's drop set is {o['final']}; caller's rows plus all null rows = {want_final}"
+        want_final = sorted(bad)
+        if o["final"] != want_final:
+            return f"caller's drop set is {o['final']} after the call{how}; caller's rows {sorted(caller)} plus null rows {sorted(nulls) if pol == 'drop' else []} = {want_final}"
+        for j, p in enumerate(o["parts"]):
+            if p["kept"] is not None and sorted(set(range(n)) - set(p["kept"])) != o["final"]:
+                return f"caller's drop set {o['final']} is not the set of rows removed from part {j} ({sorted(set(range(n)) - set(p['kept']))}){how}"
     sub = o.get("sub")
     if sub and sub["ok"] is False:
         return "drop policy: " + str(sub["why"])
@@ -1522,7 +1508,9 @@ LEVEL_TEXT = (
     "raise errors iff a null exists; ignore removes only the caller's rows; a call fails with a null-check error iff, in "
     "evaluation order, a factor fails its check while those before it pass, never under ignore (null_check_error_iff, for all "
     "inputs); a string na_action is accepted exactly when it is a member's value (na_action_text); all encoders remove the "
-    "same positions; and for EVERY history of calls on one materializer object, from any cache content, each call gives what "
+    "same positions; generating the parts of a structured spec one by one (parts naming different materializers: two passes over "
+    "one shared drop set) gives, for every policy, exactly what one materializer call over all parts gives, so every theorem "
+    "above holds on EVERY entry point (per_part_calls); and for EVERY history of calls on one materializer object, from any cache content, each call gives what "
     "the same call on a new object gives (materializer_reuse), hence obeys the same row rule. The model's dispatch tables are "
     "decided equal to the live package's singledispatch registries (dispatch_tables_match_package). The model is tied to the "
     "code by a differential correspondence on every run (single calls, histories with failing calls, and direct find_nulls / "
